@@ -23,7 +23,7 @@ pub static DEF: PropertyDef = PropertyDef {
            op the full observation equals the unsliced run's; over the whole history the observer-notification and external-call logs are equal; after the line completes the \
            story is usable again. Non-trivial = at least one pause was actually taken and the line then completed; distinct = hash of (program, history, pause plan).",
     assumptions: &["the time limit is read only through clock_gettime (verified by the calibration run: reads > 0 for every sliced continue)"],
-    runs_quick: 500,
+    runs_quick: 1600,
     runs_thorough: 30000,
     exhaustive_note: "every single pause position of each sampled history (sub-sampled above 600 positions) + the pause-after-every-read schedule",
     generate,
